@@ -14,6 +14,14 @@ from ..core.loader import Project
 from ..core.values import Alt, Arr, NoneV, Sc, Seq
 from .distances import dgm_input, unmodelled_in
 
+
+def generic_of(v):
+    from ..core.values import generic_elem
+    try:
+        return generic_elem(v)
+    except Exception:
+        return sym.ZERO
+
 PE = "persim.persistent_entropy.persistent_entropy"
 
 
@@ -108,13 +116,15 @@ def run(project: Project, rep, tier: str):
                                                   f"under reordering")
         if not norm:
             # ---------------- PE-GUARD on this run
-            appends = [ev for ev in I.log if ev["kind"] == "method-call" and ev["target"] == "append" and ev["fi"] is fi]
+            # value-producing points: where the logarithm of the probabilities is taken (in this function or in a helper)
+            appends = [ev for ev in I.log if ev["kind"] == "transcendental" and ev.get("fn") == "log"
+                       and any(x[0] == "in" for x in sym.walk(generic_of(ev["arg"])))]
             guard_spec = sym.Red("all", "$g", ("rows", "X"),
                                  sym.Cmp(">", sym.sub(sym.In("X", (("$g", 0), 1)), sym.In("X", (("$g", 0), 0))), sym.ZERO))
             if not appends:
-                rep.unmodelled("PE-GUARD", fi, fi.node, "no value-producing append found")
+                rep.unmodelled("PE-GUARD", fi, fi.node, "no logarithm of the bar probabilities found")
             for ev in appends:
-                cond = sym.And(*ev["path"]) if ev["path"] else sym.TRUE
+                cond = sym.And(*(list(ev["path"]) + [ev["reach"]]))
                 ok, w = symeval.equivalent(cond, guard_spec, trials=120, integer_inputs=True, nrows=3)
                 if ok is True:
                     rep.discharged("PE-GUARD", fi, ev["node"], "a value is produced only on the path where every bar "
@@ -125,7 +135,7 @@ def run(project: Project, rep, tier: str):
                                 f"non-positive length yields a number (0·log 0 = NaN) instead of an error; witness {w}")
                 else:
                     rep.unmodelled("PE-GUARD", fi, ev["node"], f"cannot evaluate the guard ({w})")
-            raises = [ev for ev in I.log if ev["kind"] == "raise" and ev["fi"] is fi]
+            raises = [ev for ev in I.log if ev["kind"] == "raise" and not ev.get("propagated")]
             if any(ev["path"] for ev in raises):
                 rep.discharged("PE-GUARD", fi, raises[-1]["node"], "the complementary path raises", nontrivial=False)
             else:
